@@ -309,7 +309,7 @@ static int drv_parse2(const Opts &o)
 	sp.push_back({ 33, around({ 21, 33 }) }); sp.push_back({ 35, around({ 21, 33 }) });
 	for (int t : { 32, 37 }) sp.push_back({ t, around({ 191, 8383 }) });
 	for (int t : { 0, 1, 8, 10, 13, 19, 36, 38, 39, 100, 110, 111, 127 }) sp.push_back({ t, { 0, 1, 5, 190, 191, 192 } });
-	if (TH) for (int t = 0; t < 128; t++) sp.push_back({ t, around({ 4, 8, 21, 33, CAP_ALG, CAP_STR, 8383, 65535 }) });
+	if (TH) for (int t = 0; t < 128; t++) sp.push_back({ t, around({ 4, 8, 21, 33, CAP_ALG, CAP_STR }) });
 	for (auto &s : sp) for (size_t len : s.lens) for (int form : { 0, 5, 2 }) for (int ver : { 4, 5, 0x80, 1 }) {
 		if (form == 2 && (len + 1 < 192 || len + 1 >= 8384)) continue;
 		if (ver != 4 && !(s.type == 33 || s.type == 35 || s.type == 12 || ((s.type == 4 || s.type == 7 || s.type == 25) && ver != 5))) continue;
